@@ -12,20 +12,36 @@ P = {
                   'and params_node_restart_equiv for the Haqq node over the stored evm / fee market parameters; instance for Haqq\'s '
                   'in-memory fields (EVM chain id cache: overwritten by BeginBlock before any use; precompile registry: constant of '
                   'construction; tps counter: never read), refutations for run-time precompile registration and for the begin-block gas '
-                  'that leaks into results (K16, with the repaired step proven restart-invariant); on every run a real application is '
+                  'that leaks into results (K16, with the repaired step proven restart-invariant); the state of the operating-system PROCESS '
+                  'as a third component (App/ProcRestartModel.v: node = (db, mem, proc); at a boundary the node keeps running, is re-opened '
+                  'inside the process - proc kept - or is restarted as a new process - proc fresh): continuation_is_function_of_db_and_blocks '
+                  '/ process_restart_equiv (if steps and queries read the memory only up to a relation every step re-establishes with '
+                  'rebuild db and do not read the process state, two nodes on the same database give the same results, databases and query '
+                  'answers for all following blocks whatever their process states and schedules of stops), the fee-market node as the '
+                  'instance (fee_step_obligations, fee_process_restart_equiv: all block histories, all process states) and the converse '
+                  'witness shared_one_breaks_process_restart_refuted / shared_one_reads_process_state (minimum step taken from a '
+                  'process-global "one" updated in place: never stopped 7, 8, 16, re-opened in the process 7, 8, 16, restarted as a new '
+                  'process 7, 8, 9); on every run a real application is '
                   'stopped and re-opened on the same database on several restart schedules along random histories that change the '
                   'parameters of every module through the real governance handlers, compared with the continuous node and with the '
-                  'model\'s prediction of chain id cache, registry and stored parameters after every block; /repo\'s sources are scanned '
+                  'model\'s prediction of chain id cache, registry and stored parameters after every block; in a share of the histories the '
+                  'restart is a real one - a child OS process opens a dump of the database taken at the boundary and executes all following '
+                  'blocks - and every BeginBlock of every application instance is re-evaluated by the model\'s base-fee step; /repo\'s sources are scanned '
                   'for writers of and conditions on in-memory keeper fields and callers of the registry-changing functions',
     'level_note': 'partial: the theorem is about the logic (what must be rebuilt); the database, IAVL, baseapp and CometBFT replay are '
-                  'outside the model and only sampled by the driver; a restart in the driver is a new app.NewHaqq on the same database, '
-                  'not a new OS process',
-    'technique': 'Coq proof (induction over blocks and restart points) + lock-step differential run of a continuous and restarted real nodes',
+                  'outside the model and only sampled by the driver; most restarts in the driver are a new app.NewHaqq on the same database '
+                  'inside the harness process (package-level state survives them); restarts as a new OS process (re-exec of the harness '
+                  'binary on a dump of the database) are made at the boundaries the input flags: in every third generated history and in '
+                  'every history of the low-base-fee regime',
+    'technique': 'Coq proof (induction over blocks and restart points) + lock-step differential run of a continuous and restarted real nodes '
+                 '(re-opened in the process, and restarted as separate OS processes)',
     'drivers': [
         {'name': 'restart', 'n': {'quick': 20, 'thorough': 300}, 'shrink_field': 'blocks', 'batch': 100, 'timeout': 3000},
     ],
-    'coq_header': 'From HV Require Import App.RestartModel.\nFrom Coq Require Import ZArith NArith List.\nImport ListNotations.',
-    'lists': {'cases': {'type': 'mem_case', 'check': 'mem_mismatches', 'shard': 40}},
+    'coq_header': 'From HV Require Import Feemarket.BaseFeeModel App.FeeReplicaModel App.ProcRestartModel.\n'
+                  'From HV Require Import App.RestartModel.\nFrom Coq Require Import ZArith NArith List.\nImport ListNotations.',
+    'lists': {'cases': {'type': 'mem_case', 'check': 'mem_mismatches', 'shard': 40},
+              'fees': {'type': 'fee_case', 'check': 'fee_mismatches', 'shard': 40}},
     'search': {'rounds': 2, 'n': 20},
     'rule': 'a case is a history of 4-6 blocks (thorough: 4-10) of signed eth / cosmos transactions and in-block keeper calls (contract '
             'deployment and calls, calls of implemented / deactivated / unimplemented precompile addresses, staking precompile delegate, '
@@ -37,23 +53,45 @@ P = {
             'ElasticityMultiplier >= 1, BaseFeeChangeDenominator, EnableHeight; erc20, bank + send-enabled, staking, distribution, gov, '
             'slashing, auth, consensus) or the legacy ParameterChangeProposal handler (coinomics, liquidvesting, ibc transfer), now and '
             'then with a value the module rejects, followed in the same, the next and a later block by traffic the parameters gate; '
+            'FEE-MARKET REGIME (every fourth generated history; input field "fee"): x/feemarket genesis parameters with a base fee at or '
+            'near its natural floor (0-10), denominator 2 / 8 / 50, elasticity 2-4, MinGasMultiplier 0.5 / 1, MinGasPrice 0 / 0.5 / 1 and '
+            'a finite consensus Block.MaxGas of 3-8 million; two or three blocks made heavy by the op {"op":"gasburst","k":n,"v":gas} '
+            '(n Ethereum transfers declaring gas that lifts the block\'s gas figure above the target), so that the following '
+            'BeginBlocks take the increase branch, with these base fees its minimum step of 1, twice or more with restarts between '
+            'the two steps (updates of the fee market\'s own and of the consensus block parameters are left out of these histories); '
             'executed in lock-step by a continuous node, a node re-opened on the same database (MemDB object; goleveldb directory in '
             'every second thorough case) at every boundary (twice in a row at every third), a node that runs two blocks and is then '
             'restarted twice (thorough: also odd boundaries, every third boundary), and nodes opened on a copy of the database at 3 '
             'boundaries (the one right after and one block after the first parameter update first; thorough: all) that execute all '
-            'following blocks and are restarted again two blocks later; compared: Info, ~130 state queries incl. the params queries '
+            'following blocks and are restarted again two blocks later; RESTART AS A NEW OPERATING-SYSTEM PROCESS at the boundaries the '
+            'input flags ("proc": true on the block after the boundary; generated: in every third history the boundary after the first '
+            'parameter update and / or a random one, in every history of the low-base-fee regime the boundary right after the block that '
+            'took the first minimum step and often the one right before the block that takes the second): the continuous node\'s database '
+            '(every key / value pair) and the run-time bookkeeping of the history are dumped to a file under os.MkdirTemp, the harness '
+            'binary is re-executed (`hq restart-child`, same environment) and the child loads the dump into a fresh MemDB (thorough, every '
+            'second case: a goleveldb directory of its own, closed and opened again), constructs the application, reports Info, the '
+            'cached chain id, the stored parameters and the answers to the same ~130 queries under the same header, executes all following '
+            'blocks from the recorded transaction bytes (building each transaction from its own state as well) and reports every block\'s '
+            'results, app hash, store hashes, parameters and base-fee update, which the parent compares with the continuous node exactly '
+            'as for an in-process restart (the child processes run beside the lock-step part of the next history); compared: Info, ~130 state queries incl. the params queries '
             'of every module under the same header, every DeliverTx / EndBlock result, app hash and the stored evm / fee market '
             'parameters after every block; each history also yields cases for what a freshly started node answers through ABCI Query '
             'and CheckTx before its first block and for the gas reported for a transaction failing before the ante handler in the '
-            'first block after a restart (own classes); plus one source-scan case; non-trivial = at least 3 successful operations and '
+            'first block after a restart (own classes), and a case that hands the base-fee update of every BeginBlock of every application '
+            'instance (with the flag "ran in a process of its own") to the model (fee_case / check_fee: the stored value is the one '
+            'calc_base_fee gives whatever the life of the process); plus one source-scan case; non-trivial = at least 3 successful operations and '
             '2 boundaries; distinct = distinct histories',
     'trusted_base': [
         'Coq 8.16.1 kernel incl. vm_compute; std++ 1.8.0 (tactics only); axioms: none',
-        'correspondence harness harness/restart.go, restart_params.go, chain.go, genesis.go (history ops, query set) + vlib/core.py',
-        'not modelled: cometbft-db / goleveldb, IAVL, baseapp state handling, CometBFT handshake and block replay, OS process state',
+        'correspondence harness harness/restart.go, restart_params.go, restart_fee.go, restart_proc.go, feeregime.go (regime type), '
+        'feemarket.go (closed formula used for tags), chain.go, genesis.go (history ops, query set) + vlib/core.py',
+        'not modelled: cometbft-db / goleveldb, IAVL, baseapp state handling, CometBFT handshake and block replay; the state of the '
+        'OS process is modelled as an abstract component (what it consists of in the Go runtime and the imported packages is only '
+        'sampled by the child-process restarts)',
     ],
     'assumptions': [
         'the restarted binary is the same binary with the same node configuration (app options, home directory)',
+        'a restarted process gets the database as the key / value pairs the stopped node held (dump and reload, not the files of the stopped node)',
         'no crash inside a block: the process stops after Commit',
     ],
 }
